@@ -4,5 +4,5 @@
 import sys
 sys.path[:0] = ['/repo' + "/pulser-core", '/repo' + "/pulser-simulation", "/verif"]
 from symx.replay import replay
-sys.exit(replay(check='checks.c12', kernel='autolayout', shape={'opt': False, 'n': 3, 'bad': 'far'},
+sys.exit(replay(check='checks.c12', kernel='autolayout', shape={'opt': False, 'n': 4, 'maxn': 3},
                 assignment={'max_layout_filling': '1/1'}, label='k4:automatic_layout_register_is_accepted'))
